@@ -161,6 +161,10 @@ func vfCallProgs() map[string][]*vfN {
 		"call-abs":            {m1(1), {K: "Device", Name: "DEV0", C: []*vfN{meth("M000", 0, ret(call("\\M001", vfI(1))))}}},
 		"field":               {{K: "OpRegion", Name: "REG0", C: []*vfN{vfI(0x3000), vfI(4)}}, {K: "Field", Name: "REG0", I: 1, C: []*vfN{{K: "F", S: "FLD0", I: 8}, {K: "R", I: 4}, {K: "F", S: "FLD1", I: 4}}}},
 		"field-wide":          {{K: "OpRegion", Name: "REG0", C: []*vfN{vfI(0x3000), vfI(0x200)}}, {K: "Field", Name: "REG0", I: 1, C: []*vfN{{K: "F", S: "FLD0", I: 63}, {K: "R", I: 64}, {K: "F", S: "FLD1", I: 0x123}, {K: "F", S: "FLD2", I: 1}}}},
+		// field unit widths around every PkgLength-style encoding boundary (1-byte lead up to 63; 2-, 3- and 4-byte forms,
+		// with zero and non-zero low nibbles)
+		"field-widths-2byte": {{K: "OpRegion", Name: "REG0", C: []*vfN{vfI(0x3000), vfI(0x4000)}}, {K: "Field", Name: "REG0", I: 1, C: []*vfN{{K: "F", S: "FL00", I: 62}, {K: "F", S: "FL01", I: 63}, {K: "F", S: "FL02", I: 64}, {K: "F", S: "FL03", I: 65}, {K: "F", S: "FL04", I: 80}, {K: "F", S: "FL05", I: 127}, {K: "F", S: "FL06", I: 128}, {K: "F", S: "FL07", I: 255}, {K: "F", S: "FL08", I: 256}, {K: "F", S: "FL09", I: 1024}, {K: "F", S: "FL10", I: 4080}, {K: "F", S: "FL11", I: 4095}, {K: "F", S: "FL12", I: 1}}}},
+		"field-widths-3byte": {{K: "OpRegion", Name: "REG0", C: []*vfN{vfI(0x3000), vfI(0x100000)}}, {K: "Field", Name: "REG0", I: 1, C: []*vfN{{K: "F", S: "FL00", I: 4096}, {K: "F", S: "FL01", I: 4097}, {K: "R", I: 4096}, {K: "F", S: "FL02", I: 0x10000}, {K: "F", S: "FL03", I: 0xfffff}, {K: "F", S: "FL04", I: 0x100000}, {K: "F", S: "FL05", I: 0x100010}, {K: "R", I: 0x40}, {K: "F", S: "FL06", I: 16}, {K: "F", S: "FL07", I: 0xfffffff}}}},
 		"field-in-dev":        {{K: "Device", Name: "DEV0", C: []*vfN{{K: "OpRegion", Name: "REG0", C: []*vfN{vfI(0x3000), vfI(4)}}, {K: "Field", Name: "REG0", I: 1, C: []*vfN{{K: "F", S: "FLD0", I: 8}}}}}},
 		"buf-then-method":     {{K: "Name", Name: "BUF0", C: []*vfN{{K: "Buf", S: "ab"}}}, meth("M000", 0, ret(vfI(1)))},
 		"while-store":         {meth("M000", 1, &vfN{K: "While", C: []*vfN{{K: "Arg", I: 0}, store(vfI(5), loc0)}}, &vfN{K: "If", C: []*vfN{loc0, ret(vfI(3))}}, &vfN{K: "Else", C: []*vfN{ret(vfI(4))}})},
@@ -405,7 +409,7 @@ func TestVerifC11(t *testing.T) {
 		}
 	}
 	run.Count("rejected_by_reference_as_ill_formed", c.skipped)
-	run.Finish(true, fmt.Sprintf("T1: 20 constructs x 7 name forms x 13 containers x PkgLength encodings %v; T2: 53 call/field/operator/module-level programs x 13 containers, every ordered pair of constructs x 13 containers; T3: constructs x name forms x 8x8 nested containers (thorough: all constructs; plus T2 programs in 8x8 nested containers and every ordered triple of constructs in 4 containers); T4: 5 first tables x 7 second tables (Scope into / call into / plain) x constructs, and 3 first tables with deferred blocks (Buffer, While, Package) x later tables that need the two-phase treatment again (forward calls, nested packages followed by siblings, every T2 program), two and three tables on one parser; T5: every ordered pair and triple of 7 scope/relocation blocks whose resolution needs several passes (also split over two tables)", pfs),
+	run.Finish(true, fmt.Sprintf("T1: 20 constructs x 7 name forms x 13 containers x PkgLength encodings %v; T2: 55 call/field/operator/module-level programs x 13 containers, every ordered pair of constructs x 13 containers; T3: constructs x name forms x 8x8 nested containers (thorough: all constructs; plus T2 programs in 8x8 nested containers and every ordered triple of constructs in 4 containers); T4: 5 first tables x 7 second tables (Scope into / call into / plain) x constructs, and 3 first tables with deferred blocks (Buffer, While, Package) x later tables that need the two-phase treatment again (forward calls, nested packages followed by siblings, every T2 program), two and three tables on one parser; T5: every ordered pair and triple of 7 scope/relocation blocks whose resolution needs several passes (also split over two tables)", pfs),
 		"a program is distinct by its ASL rendering and non-trivial if the reference accepts it as well-formed and the parsed namespace agrees with it")
 }
 
